@@ -3,4 +3,499 @@ import DaeVerif.C07.Model
 namespace DaeVerif.C07
 open DaeVerif.RuleScan
 
+/-! ## linking: indices assigned by the builder point at the right tables -/
+
+theorem linkDoms_append (l1 l2 : List (Entry Atom Nat)) (i : Nat) :
+    linkDoms (l1 ++ l2) i = linkDoms l1 i ++ linkDoms l2 (i + l1.length) := by
+  induction l1 generalizing i with
+  | nil => simp [linkDoms]
+  | cons e es ih =>
+    simp only [List.cons_append, linkDoms, List.length_cons]
+    have : i + 1 + es.length = i + (es.length + 1) := by omega
+    cases e.cond <;> simp [ih, this]
+
+theorem linkDoms_idx (l : List (Entry Atom Nat)) (i : Nat) :
+    ∀ d ∈ linkDoms l i, i ≤ d.idx ∧ d.idx < i + l.length := by
+  induction l generalizing i with
+  | nil => simp [linkDoms]
+  | cons e es ih =>
+    intro d hd
+    simp only [linkDoms] at hd
+    cases hc : e.cond <;> simp only [hc, List.mem_cons] at hd
+    case dom k ps =>
+      rcases hd with rfl | hd
+      · simp
+      · have := ih (i + 1) d hd; simp; omega
+    all_goals (have := ih (i + 1) d hd; simp; omega)
+
+theorem linkIps_append (l1 l2 : List (Entry Atom Nat)) :
+    linkIps (l1 ++ l2) = linkIps l1 ++ linkIps l2 := by
+  induction l1 with
+  | nil => simp [linkIps]
+  | cons e es ih =>
+    simp only [List.cons_append, linkIps]
+    cases e.cond <;> simp [ih]
+
+theorem linkIps_snoc_length (pre : List (Entry Atom Nat)) (e : Entry Atom Nat) :
+    (linkIps (pre ++ [e])).length = if isIpset e.cond then (linkIps pre).length + 1 else (linkIps pre).length := by
+  rw [linkIps_append]
+  cases h : e.cond <;> simp [linkIps, isIpset, h]
+
+/-- the bitmap bit at the position of an entry is the match of that entry's own domain set -/
+theorem bitmapOf_at (rx : List String) (name : List Char) (pre suf : List (Entry Atom Nat))
+    (e : Entry Atom Nat) (k : DKey) (ps : List String) (he : e.cond = .dom k ps) :
+    bitmapOf rx (linkDoms (pre ++ e :: suf) 0) name pre.length = domSetMatch rx k ps (normName name) := by
+  rw [linkDoms_append]
+  simp only [bitmapOf, linkDoms, he, List.any_append, List.any_cons, Nat.zero_add, beq_self_eq_true,
+    Bool.true_and]
+  have h1 : (linkDoms pre 0).any (fun d => d.idx == pre.length && domSetMatch rx d.key d.pats (normName name)) = false := by
+    rw [List.any_eq_false]
+    intro d hd
+    have := linkDoms_idx pre 0 d hd
+    have : (d.idx == pre.length) = false := by simp; omega
+    simp [this]
+  have h2 : (linkDoms suf (pre.length + 1)).any (fun d => d.idx == pre.length && domSetMatch rx d.key d.pats (normName name)) = false := by
+    rw [List.any_eq_false]
+    intro d hd
+    have := linkDoms_idx suf (pre.length + 1) d hd
+    have : (d.idx == pre.length) = false := by simp; omega
+    simp [this]
+  rw [h1, h2]; simp
+
+theorem evalMS_at (env : Env) (pre suf : List (Entry Atom Nat)) (e : Entry Atom Nat) :
+    evalMS (link (pre ++ e :: suf)) env pre.length (toMS e (linkIps pre).length) = evAtom env e.cond := by
+  cases he : e.cond with
+  | dom k ps =>
+    simp only [evalMS, toMS, he, link, evAtom]
+    rw [bitmapOf_at env.rx env.name pre suf e k ps he]
+  | qtype v => simp [evalMS, toMS, he, evAtom]
+  | ipset ps =>
+    simp only [evalMS, toMS, he, link, evAtom]
+    rw [linkIps_append]
+    simp [linkIps, he]
+  | upstream v => simp [evalMS, toMS, he, evAtom]
+  | always => simp [evalMS, toMS, he, evAtom]
+
+/-! ## the Go loop is `RuleScan.scanAux` -/
+
+/-- what the builder guarantees of every match set's outbound byte -/
+def TailOK (e : Entry Atom Nat) : Prop :=
+  match e.tail with
+  | .or | .and => True
+  | .final o => o < 0xFE
+  | .mustRules => False
+
+set_option maxRecDepth 100000 in
+theorem isFinalByte_lt : ∀ o, o < 0xFE → isFinalByte o = true ∧ (o != 0xFE) = true := by
+  decide
+
+theorem toMS_upstream (e : Entry Atom Nat) (n : Nat) : (toMS e n).upstream = tailByte e.tail := by
+  unfold toMS; cases e.cond <;> rfl
+
+theorem toMS_neg (e : Entry Atom Nat) (n : Nat) : (toMS e n).neg = e.neg := by
+  unfold toMS; cases e.cond <;> rfl
+
+theorem scanGo_link (env : Env) (all : List (Entry Atom Nat)) :
+    ∀ (suf pre : List (Entry Atom Nat)), all = pre ++ suf → (∀ e ∈ suf, TailOK e) →
+    ∀ g b, scanGo (evalMS (link all) env) (linkMs suf (linkIps pre).length) pre.length g b
+      = (scanAux (evAtom env) suf g b false).map Prod.fst := by
+  intro suf
+  induction suf with
+  | nil => intro pre _ _ g b; simp [linkMs, scanGo, scanAux]
+  | cons e es ih =>
+    intro pre hall hok g b
+    have hev : evalMS (link all) env pre.length (toMS e (linkIps pre).length) = evAtom env e.cond := by
+      rw [hall]; exact evalMS_at env pre es e
+    have hall' : all = (pre ++ [e]) ++ es := by simp [hall]
+    have ih' := ih (pre ++ [e]) hall' (fun x hx => hok x (List.mem_cons_of_mem _ hx))
+    rw [linkIps_snoc_length] at ih'
+    simp only [List.length_append, List.length_cons, List.length_nil, Nat.zero_add] at ih'
+    have hoke := hok e (List.mem_cons_self)
+    rw [scanAux_cons]
+    simp only [linkMs, scanGo, toMS_upstream, toMS_neg, hev]
+    unfold TailOK at hoke
+    cases ht : e.tail with
+    | or =>
+      have h0 : isFinalByte 0xFE = false := by decide
+      simp only [tailByte, tailStep, h0, bne_self_eq_false, Bool.false_eq_true, if_false]
+      exact ih' _ _
+    | and =>
+      have h1 : isFinalByte 0xFF = false := by decide
+      have h2 : ((0xFF : Nat) != 0xFE) = true := by decide
+      simp only [tailByte, tailStep, h1, h2, if_true, Bool.false_eq_true, if_false]
+      exact ih' _ _
+    | final o =>
+      rw [ht] at hoke
+      have ⟨h1, h2⟩ := isFinalByte_lt o hoke
+      simp only [tailByte, tailStep, h1, h2, if_true]
+      cases hc : (b || ((if (b || g) = true then g else evAtom env e.cond) == e.neg))
+      · simp
+      · simp only [Bool.not_true, Bool.false_eq_true, if_false, if_true]
+        exact ih' _ _
+    | mustRules => rw [ht] at hoke; exact absurd hoke (by simp)
+
+/-! ## every byte the lowering writes is `<OR>`, `<AND>` or a rule's outbound -/
+
+def TailOKT : Tail Nat → Prop
+  | .or | .and => True
+  | .final o => o < 0xFE
+  | .mustRules => False
+
+theorem TailOK_iff (e : Entry Atom Nat) : TailOK e ↔ TailOKT e.tail := by
+  unfold TailOK TailOKT; cases e.tail <;> simp
+
+theorem lowerAlts_ok (neg : Bool) (last : Tail Nat) (hl : TailOKT last) (ks : List Atom) :
+    ∀ k, ∀ e ∈ lowerAlts neg last k ks, TailOK e := by
+  induction ks with
+  | nil => intro k e he; simp [lowerAlts] at he; subst he; exact (TailOK_iff _).mpr hl
+  | cons k' ks ih =>
+    intro k e he
+    simp only [lowerAlts, List.mem_cons] at he
+    rcases he with rfl | he
+    · exact (TailOK_iff _).mpr trivial
+    · exact ih k' e he
+
+theorem lowerConds_ok (out : Tail Nat) (ho : TailOKT out) (cs : List (Cond Atom)) :
+    ∀ c, ∀ e ∈ lowerConds out c cs, TailOK e := by
+  induction cs with
+  | nil => intro c e he; exact lowerAlts_ok _ _ ho _ _ e he
+  | cons c' cs ih =>
+    intro c e he
+    simp only [lowerConds, List.mem_append] at he
+    rcases he with he | he
+    · exact lowerAlts_ok _ .and (show TailOKT .and from trivial) _ _ e he
+    · exact ih c' e he
+
+theorem lower_ok (R : List (Rule Atom Nat))
+    (hR : ∀ r ∈ R, ∃ o, r.out = .final o ∧ o < 0xFE) : ∀ e ∈ lower R, TailOK e := by
+  intro e he
+  simp only [lower, List.mem_flatMap] at he
+  obtain ⟨r, hr, he⟩ := he
+  obtain ⟨o, ho, hlt⟩ := hR r hr
+  exact lowerConds_ok _ (by rw [ho]; exact hlt) _ _ e he
+
+theorem entriesOf_ok (R : List (Rule Atom Nat)) (fb : Nat)
+    (hR : ∀ r ∈ R, ∃ o, r.out = .final o ∧ o < 0xFE) (hfb : fb < 0xFE) :
+    ∀ e ∈ entriesOf R fb, TailOK e := by
+  intro e he
+  simp only [entriesOf, List.mem_append, List.mem_singleton] at he
+  rcases he with he | rfl
+  · exact lower_ok R hR e he
+  · exact hfb
+
+/-! ## `toRules`: shape and meaning -/
+
+theorem toRule_out (r : SrcRule) (x : Rule Atom Nat) (h : toRule r = some x) : x.out = .final r.out := by
+  unfold toRule at h
+  split at h
+  · cases h; rfl
+  · cases h
+
+theorem toRules_out : ∀ (rs : List SrcRule) (R : List (Rule Atom Nat)), toRules rs = some R →
+    (∀ r ∈ rs, r.out < 0xFE) → ∀ x ∈ R, ∃ o, x.out = .final o ∧ o < 0xFE := by
+  intro rs
+  induction rs with
+  | nil => intro R h _ x hx; simp [toRules] at h; subst h; cases hx
+  | cons r rs ih =>
+    intro R h hlt x hx
+    simp only [toRules] at h
+    cases h1 : toRule r with
+    | none => simp [h1] at h
+    | some y =>
+      cases h2 : toRules rs with
+      | none => simp [h1, h2] at h
+      | some ys =>
+        simp [h1, h2] at h; subst h
+        rcases List.mem_cons.mp hx with rfl | hx
+        · exact ⟨r.out, toRule_out r _ h1, hlt r (List.mem_cons_self)⟩
+        · exact ih ys h2 (fun r' hr' => hlt r' (List.mem_cons_of_mem _ hr')) x hx
+
+/-! ### grouping by key does not change "some parameter matches" -/
+
+theorem keyOrder_acc_subset {κ α : Type} [BEq κ] [LawfulBEq κ] (ps : List (κ × α)) :
+    ∀ (acc : List κ) (k : κ), k ∈ acc → k ∈ keyOrder ps acc := by
+  induction ps with
+  | nil => intro acc k h; exact h
+  | cons p ps ih =>
+    intro acc k h
+    simp only [keyOrder]
+    apply ih
+    split
+    · exact h
+    · exact List.mem_append_left _ h
+
+theorem mem_keyOrder {κ α : Type} [BEq κ] [LawfulBEq κ] (ps : List (κ × α)) :
+    ∀ (acc : List κ) (p : κ × α), p ∈ ps → p.1 ∈ keyOrder ps acc := by
+  induction ps with
+  | nil => intro acc p h; cases h
+  | cons q ps ih =>
+    intro acc p h
+    simp only [keyOrder]
+    rcases List.mem_cons.mp h with rfl | h
+    · apply keyOrder_acc_subset
+      split
+      · rename_i hc; simpa using hc
+      · simp
+    · exact ih _ p h
+
+theorem groupByKey_any {κ α : Type} [BEq κ] [LawfulBEq κ] (ps : List (κ × α)) (f : κ → α → Bool) :
+    (groupByKey ps).any (fun g => g.2.any (f g.1)) = ps.any (fun p => f p.1 p.2) := by
+  rw [Bool.eq_iff_iff]
+  simp only [groupByKey, List.any_eq_true]
+  constructor
+  · rintro ⟨g, hg, v, hv, hf⟩
+    obtain ⟨k, _, rfl⟩ := List.mem_map.mp hg
+    obtain ⟨p, hp, rfl⟩ := List.mem_map.mp hv
+    have ⟨hp1, hp2⟩ := List.mem_filter.mp hp
+    have : p.1 = k := by simpa using hp2
+    subst this
+    exact ⟨p, hp1, hf⟩
+  · rintro ⟨p, hp, hf⟩
+    refine ⟨(p.1, (ps.filter fun q => q.1 == p.1).map Prod.snd), ?_, p.2, ?_, hf⟩
+    · exact List.mem_map.mpr ⟨p.1, mem_keyOrder ps [] p hp, rfl⟩
+    · exact List.mem_map.mpr ⟨p, List.mem_filter.mpr ⟨hp, by simp⟩, rfl⟩
+
+theorem any_and_const {α : Type} (b : Bool) (l : List α) (f : α → Bool) :
+    (b && l.any f) = l.any (fun x => b && f x) := by
+  induction l with
+  | nil => simp
+  | cons x xs ih => simp only [List.any_cons, ← ih]; cases b <;> simp
+
+theorem any_comm {α β : Type} (l : List α) (m : List β) (f : α → β → Bool) :
+    l.any (fun a => m.any (fun b => f a b)) = m.any (fun b => l.any (fun a => f a b)) := by
+  rw [Bool.eq_iff_iff]
+  simp only [List.any_eq_true]
+  constructor
+  · rintro ⟨a, ha, b, hb, h⟩; exact ⟨b, hb, a, ha, h⟩
+  · rintro ⟨b, hb, a, ha, h⟩; exact ⟨a, ha, b, hb, h⟩
+
+/-- the match sets a call lowers to mean "some parameter matches" -/
+theorem alts_any (env : Env) (f : Func) : f.alts.any (evAtom env) = f.anyParam env := by
+  cases f with
+  | qname neg ps =>
+    simp only [Func.alts, Func.anyParam, List.any_map, Function.comp_def, evAtom, domSetMatch]
+    rw [← groupByKey_any ps (fun k v => env.name != [] && patMatch env.rx k v (normName env.name))]
+    congr 1; funext g
+    exact any_and_const _ _ _
+  | qtype neg ps =>
+    simp only [Func.alts, Func.anyParam, List.any_flatMap, List.any_map, Function.comp_def, evAtom]
+    exact groupByKey_any ps (fun _ v => env.qtype == v)
+  | ip neg ps =>
+    simp only [Func.alts, Func.anyParam, List.any_map, Function.comp_def, evAtom]
+    rw [any_comm]
+    congr 1; funext a
+    exact groupByKey_any ps (fun _ p => pfxContains p a)
+  | upstream neg vs =>
+    simp only [Func.alts, Func.anyParam, List.any_map, Function.comp_def, evAtom]
+  | internal => simp [Func.alts, Func.anyParam]
+
+theorem toCond_holds (env : Env) (f : Func) (c : Cond Atom) (h : toCond f = some c) :
+    condHolds (evAtom env) c = f.holds env := by
+  unfold toCond at h
+  split at h
+  · cases h
+  · rename_i a as ha
+    cases h
+    simp only [condHolds, Cond.alts, Func.holds, ← alts_any, ha]
+
+theorem toConds_holds (env : Env) : ∀ (fs : List Func) (cs : List (Cond Atom)), toConds fs = some cs →
+    cs.all (condHolds (evAtom env)) = fs.all (Func.holds env) := by
+  intro fs
+  induction fs with
+  | nil => intro cs h; simp [toConds] at h; subst h; rfl
+  | cons f fs ih =>
+    intro cs h
+    simp only [toConds] at h
+    cases h1 : toCond f with
+    | none => simp [h1] at h
+    | some c =>
+      cases h2 : toConds fs with
+      | none => simp [h1, h2] at h
+      | some cs' =>
+        simp [h1, h2] at h; subst h
+        simp only [List.all_cons, toCond_holds env f c h1, ih cs' h2]
+
+theorem toRule_holds (env : Env) (r : SrcRule) (x : Rule Atom Nat) (h : toRule r = some x) :
+    ruleHolds (evAtom env) x = r.holds env := by
+  unfold toRule at h
+  split at h
+  · rename_i c cs hc
+    cases h
+    simp only [ruleHolds, Rule.conds, SrcRule.holds]
+    exact toConds_holds env r.funcs (c :: cs) hc
+  · cases h
+
+theorem firstMatch_toRules (env : Env) (fb : Nat) : ∀ (rs : List SrcRule) (R : List (Rule Atom Nat)),
+    toRules rs = some R → firstMatch (evAtom env) R fb false = (firstMatchSrc env rs fb, false) := by
+  intro rs
+  induction rs with
+  | nil => intro R h; simp [toRules] at h; subst h; rfl
+  | cons r rs ih =>
+    intro R h
+    simp only [toRules] at h
+    cases h1 : toRule r with
+    | none => simp [h1] at h
+    | some x =>
+      cases h2 : toRules rs with
+      | none => simp [h1, h2] at h
+      | some xs =>
+        simp [h1, h2] at h; subst h
+        simp only [firstMatch, firstMatchSrc, toRule_holds env r x h1, toRule_out r x h1]
+        split
+        · rfl
+        · exact ih xs h2
+
+/-- **Refinement**: the loop over the compiled program returns the first matching rule's outbound. -/
+theorem scanGo_compile (env : Env) (rs : List SrcRule) (fb : Nat) (P : Prog)
+    (hc : compile rs fb = some P) (hout : ∀ r ∈ rs, r.out < 0xFE) (hfb : fb < 0xFE) :
+    scanGo (evalMS P env) P.ms 0 false false = some (firstMatchSrc env rs fb) := by
+  unfold compile at hc
+  cases hR : toRules rs with
+  | none => simp [hR] at hc
+  | some R =>
+    simp [hR] at hc; subst hc
+    have hok := entriesOf_ok R fb (toRules_out rs R hR hout) hfb
+    have h := scanGo_link env (entriesOf R fb) (entriesOf R fb) [] (by simp) hok false false
+    simp only [linkIps, List.length_nil] at h
+    show scanGo (evalMS (link (entriesOf R fb)) env) (linkMs (entriesOf R fb) 0) 0 false false = _
+    rw [h]
+    unfold entriesOf fallbackEntry
+    rw [scan_lower (evAtom env) .always (by rfl) fb R false, firstMatch_toRules env fb rs R hR]
+    rfl
+
+/-! ## first-match characterisation -/
+
+theorem firstMatchSrc_char (env : Env) (fb : Nat) : ∀ rs : List SrcRule,
+    (∃ pre r post, rs = pre ++ r :: post ∧ (∀ x ∈ pre, x.holds env = false) ∧ r.holds env = true ∧
+        firstMatchSrc env rs fb = r.out) ∨
+    ((∀ x ∈ rs, x.holds env = false) ∧ firstMatchSrc env rs fb = fb) := by
+  intro rs
+  induction rs with
+  | nil => right; simp [firstMatchSrc]
+  | cons r rs ih =>
+    cases hr : r.holds env with
+    | true => left; exact ⟨[], r, rs, rfl, by simp, hr, by simp [firstMatchSrc, hr]⟩
+    | false =>
+      rcases ih with ⟨pre, x, post, rfl, hpre, hx, hres⟩ | ⟨hall, hres⟩
+      · left
+        refine ⟨r :: pre, x, post, rfl, ?_, hx, by simp [firstMatchSrc, hr, hres]⟩
+        intro y hy
+        rcases List.mem_cons.mp hy with rfl | hy
+        · exact hr
+        · exact hpre y hy
+      · right
+        refine ⟨?_, by simp [firstMatchSrc, hr, hres]⟩
+        intro y hy
+        rcases List.mem_cons.mp hy with rfl | hy
+        · exact hr
+        · exact hall y hy
+
+/-! ## the cache operations -/
+
+theorem lookup_removeFamily_same (c : Cache) (n : List Char) (t : Nat) (sc : Scope) :
+    (Cache.removeFamily c n t).lookup ⟨n, t, sc⟩ = none := by
+  induction c with
+  | nil => rfl
+  | cons e es ih =>
+    simp only [Cache.removeFamily, Cache.lookup] at ih ⊢
+    simp only [List.filter_cons]
+    split
+    · rename_i h
+      simp only [List.find?_cons]
+      have : (e.1 == (⟨n, t, sc⟩ : CacheKey)) = false := by
+        rw [beq_eq_false_iff_ne]
+        intro heq
+        simp [heq] at h
+      simp only [this]
+      exact ih
+    · exact ih
+
+theorem lookup_removeFamily_other (c : Cache) (n : List Char) (t : Nat) (k : CacheKey)
+    (h : ¬(k.name = n ∧ k.qtype = t)) : (Cache.removeFamily c n t).lookup k = c.lookup k := by
+  induction c with
+  | nil => rfl
+  | cons e es ih =>
+    simp only [Cache.removeFamily, Cache.lookup] at ih ⊢
+    simp only [List.filter_cons, List.find?_cons]
+    split
+    · simp only [List.find?_cons]
+      split
+      · rfl
+      · exact ih
+    · rename_i hf
+      have : (e.1 == k) = false := by
+        rw [beq_eq_false_iff_ne]
+        intro heq
+        subst heq
+        simp at hf
+        exact h hf
+      simp only [this]
+      exact ih
+
+theorem lookup_store_same (c : Cache) (k : CacheKey) (v : List Rec) : (c.store k v).lookup k = some v := by
+  simp [Cache.store, Cache.lookup]
+
+theorem lookup_store_other (c : Cache) (k k' : CacheKey) (v : List Rec) (h : k' ≠ k) :
+    (c.store k v).lookup k' = c.lookup k' := by
+  have hk : (k == k') = false := by rw [beq_eq_false_iff_ne]; exact fun e => h e.symm
+  simp only [Cache.store, Cache.lookup, List.find?_cons, hk]
+  congr 1
+  induction c with
+  | nil => rfl
+  | cons e es ih =>
+    simp only [List.filter_cons, List.find?_cons]
+    split
+    · simp only [List.find?_cons]
+      split
+      · rfl
+      · exact ih
+    · rename_i hf
+      have : (e.1 == k') = false := by
+        rw [beq_eq_false_iff_ne]
+        intro heq
+        have : e.1 = k := by simpa using hf
+        exact h (heq ▸ this)
+      simp only [this]
+      exact ih
+
+/-! ## dialSend -/
+
+theorem dialSend_deep (cfg : Cfg) (ans : Upstreams) (d : Nat) (u : UpRef) (h : d ≥ maxDnsLookupDepth) :
+    dialSend cfg ans d u = ([], .error .tooDeep) := by
+  rw [dialSend]; simp [h]
+
+theorem dialSend_step (cfg : Cfg) (ans : Upstreams) (d : Nat) (u : UpRef) (h : d < maxDnsLookupDepth) :
+    dialSend cfg ans d u =
+      match ans d u with
+      | none => ([u], .error .forwardFail)
+      | some r =>
+        match responseSelect cfg r u with
+        | .err e => ([u], .error e)
+        | .accept => ([u], .ok r)
+        | .reject => ([u], .ok { r with recs := [] })
+        | .next k => (u :: (dialSend cfg ans (d + 1) (.up k)).1, (dialSend cfg ans (d + 1) (.up k)).2) := by
+  rw [dialSend, dif_neg (Nat.not_le.mpr h)]
+  rfl
+
+theorem dialSend_trace_le (cfg : Cfg) (ans : Upstreams) :
+    ∀ (n d : Nat) (u : UpRef), maxDnsLookupDepth - d = n → (dialSend cfg ans d u).1.length ≤ n := by
+  intro n
+  induction n with
+  | zero =>
+    intro d u h
+    rw [dialSend_deep cfg ans d u (by omega)]; simp
+  | succ n ih =>
+    intro d u h
+    rw [dialSend_step cfg ans d u (by omega)]
+    cases ans d u with
+    | none => simp
+    | some r =>
+      cases hs : responseSelect cfg r u with
+      | err e => simp [hs]
+      | accept => simp [hs]
+      | reject => simp [hs]
+      | next k =>
+        have := ih (d + 1) (.up k) (by omega)
+        simp only [hs, List.length_cons]; omega
+
 end DaeVerif.C07
